@@ -28,11 +28,14 @@ impl<'a> VxTryIntoArr for &'a [u8] {
     open spec fn vx_view(self) -> Seq<u8> { self@ }
     #[verifier::external_body] fn vx_try_into_arr<const N: usize>(self) -> (r: core::result::Result<[u8; N], TryFromSliceError>) { <[u8; N]>::try_from(self) }
 }
+//@ include ../_common/bytechain_prelude.rs
 // ---- passkey-types data carriers (models; struct text extracted where it is plain)
 pub struct Bytes(pub Vec<u8>);
 impl View for Bytes { type V = Seq<u8>; open spec fn view(&self) -> Seq<u8> { self.0@ } }
 impl Bytes { pub fn as_slice(&self) -> (r: &[u8]) ensures r@ == self@ { self.0.as_slice() } }
+impl<'a> VxByteSource for &'a Bytes { open spec fn vx_seq(self) -> Seq<u8> { self@ } #[verifier::external_body] fn vx_bytes(self) -> (r: VxBytes) { VxBytes(self.0.clone()) } }
 pub uninterp spec fn spec_sha256(d: Seq<u8>) -> Seq<u8>;
+#[verifier::external_body] pub fn sha256(data: &[u8]) -> (r: [u8; 32]) ensures r@ == spec_sha256(data@) { unimplemented!() }
 // the PRF salt of the statement: SHA-256("WebAuthn PRF" || 0x00 || input)
 pub open spec fn prf_salt(v: Seq<u8>) -> Seq<u8> { spec_sha256(seq![87u8, 101, 98, 65, 117, 116, 104, 110, 32, 80, 82, 70, 0] + v) }
 pub mod webauthn {
@@ -178,6 +181,7 @@ pub mod prf_file {
     //@ source prf passkey-client/src/extensions/prf.rs
     type Result<T> = ::std::result::Result<T, WebauthnError>;
     //@ extract prf fn make_salt
+    //@   rule R23
     //@ extract prf fn validate_no_eval_by_cred
     //@ extract prf fn convert_eval_to_ctap
     //@   rule R4c
